@@ -150,6 +150,34 @@ def r1_worklists(ctx):
                     if a_ and a_[0] == 'cmp' and a_[1] == 'eq':
                         both = True    # a per-start equality test (reached == n): true for some graphs, false for others
         ctx.check(both, 'connected-verdicts', 'connected() can answer both ways', f.where())
+        # the verdict counts the visited nodes: a node enters the visited list only if it is not in it yet (the test is made on the very
+        # value that is recorded, at the time it is recorded) - a list with duplicates makes a connected graph look unconnected
+        # (a set type deduplicates by itself)
+        n_rec = 0
+
+        def base_list(t):
+            t = canon(strip_refs(t))
+            while t[0] == 'call' and len(t[2]) == 1 and t[1].split('::')[-1] in ('deref', 'deref_mut', 'as_slice', 'as_ref', 'borrow'):
+                t = canon(strip_refs(t[2][0]))
+            return t
+        for g in P.fn_list:
+            if not (g.key.startswith(T + '::connected') and g.kind != 'promoted'):
+                continue
+            for c in g.calls():
+                if c.name.split('::')[-1] in ('push', 'push_back') and c.argtys and c.argtys[0].startswith('&mut') and 'usize' in c.argtys[0] and len(c.args) == 2:
+                    rec_v = canon(peel(g.expr_operand(c.args[1], c.b, 'T')))
+                    lst = base_list(peel(g.expr_operand(c.args[0], c.b, 'T')))
+                    # is this the list whose membership is tested anywhere in g (= the visited list), as opposed to a work list?
+                    tests = [x for b_ in sorted(g.reachable()) for _, a in g.guard_atoms(b_) if a and a[0] == 'bool' and a[1][0] == 'call' and a[1][1].endswith('::contains')
+                             for x in [a] if base_list(peel_c(a[1][2][0])) == lst]
+                    if not tests:
+                        continue
+                    n_rec += 1
+                    ga = [a for _, a in g.guard_atoms(c.b)]
+                    fresh_ = any(a[0] == 'bool' and a[2] is False and a[1][0] == 'call' and a[1][1].endswith('::contains') and
+                                 base_list(peel_c(a[1][2][0])) == lst and canon(strip_refs(peel_c(a[1][2][1]))) == canon(strip_refs(rec_v)) for a in ga)
+                    ctx.check(fresh_, 'visited-without-duplicates', 'a node is recorded as visited only under the test that it is not recorded yet', c.where(), [show_atom(a) for a in ga][:3])
+        ctx.note('visited-list records checked in connected(): %d' % n_rec)
 
 
 def _edge_sites(ctx, f):
@@ -265,9 +293,11 @@ def r2_edge_provenance(ctx):
                 site = [s for s in f.calls() if s.b == nx[3]]
                 ty = site[0].argtys[0] if site and site[0].argtys else ''
                 bounded = any(a in ty for a in ('Take<', 'TakeWhile<', 'StepBy<', 'Skip<'))
-                ctx.check(not bounded, 'walk-whole-chain:%s' % key.split('::')[-1],
+                hdr = innermost_loop(f, b)
+                early = hdr is not None and not loop_exits_only_on_exhaustion(f, hdr)
+                ctx.check(not bounded and not early, 'walk-whole-chain:%s' % key.split('::')[-1],
                           'the end gate is found by walking the whole gate chain (chains of any length): a hop bound makes the edge of a longer chain end at an intermediate transit gate',
-                          f.where(b), ty)
+                          f.where(b), {'iterator': ty, 'loop_left_before_exhaustion': early})
 
 
 def r3_filters(ctx):
